@@ -502,9 +502,71 @@ inline History p2d_history(uint32_t k, uint32_t r, uint64_t mask, int api, int o
   return h;
 }
 
+// a decoder history for a given configuration, received pattern, API, order
+inline History dec_history(const Config& c, uint64_t mask, int api, int order, uint64_t oseed, bool finish, int cb, bool query_every, int cut) {
+  History h; Script s; s.cfg = c; s.role = ROLE_DEC; s.align = oseed;
+  s.cbmode = cb ? cb : 1; s.cbmask = oseed * 0x9E3779B97F4A7C15ULL;
+  if (cb) { Step st; st.op = OP_SETCB; st.flag = 1; s.steps.push_back(st); }
+  Step sp; sp.op = OP_SETPARAMS; s.steps.push_back(sp);
+  std::vector<uint32_t> rec;
+  for (uint32_t e = 0; e < c.k + c.r; e++) if (mask & (1ull << e)) rec.push_back(e);
+  if (order == 1) std::reverse(rec.begin(), rec.end());
+  if (order >= 2) seeded_shuffle(rec, oseed);
+  if (api == 1) { Step a; a.op = OP_AVAIL; a.set = rec; std::sort(a.set.begin(), a.set.end()); s.steps.push_back(a); if (query_every) push_query(s); }
+  else for (uint32_t e : rec) { Step st; st.op = OP_NEW; st.esi = e; s.steps.push_back(st); if (query_every) push_query(s); }
+  if (finish) { Step f; f.op = OP_FINISH; s.steps.push_back(f); if (query_every) push_query(s); }
+  if (cut >= 0 && (size_t)cut < s.steps.size()) s.steps.resize((size_t)cut);
+  h.scripts.push_back(s);
+  return h;
+}
+
+// complete enumeration of small codes: every received subset x APIs x finish/no finish (+ one seeded order)
 template <class F>
-inline void enumerate(const std::string& prop, const Tier& t, int worker, int nworkers, uint64_t seed, F one, std::string& extra_json) {
-  if (prop != "C16") return;
+inline void enumerate_small(const PropSpec& ps, const Tier& t, int worker, int nworkers, uint64_t seed, F one, Stats* st_out, std::string& extra_json) {
+  std::vector<Config> cfgs;
+  uint32_t nmax_rs = t.thorough ? 10 : 7, nmax_ldpc = t.thorough ? 14 : 11;
+  auto add_rs = [&](int codec, uint32_t m, uint32_t lim) {
+    for (uint32_t n = 2; n <= std::min(nmax_rs, lim); n++) for (uint32_t k = 1; k < n; k++) { Config c; c.codec = codec; c.m = m; c.k = k; c.r = n - k; c.L = 1 + (k * 7 + n) % 9; c.payload = (k + n) % 3 == 0 ? PAY_IDENTITY : PAY_RANDOM; c.pseed = k * 131 + n; cfgs.push_back(c); }
+  };
+  if (ps.go.codecs & GC_RS8) add_rs(CODEC_RS8, 8, 255);
+  if (ps.go.codecs & GC_RSM4) add_rs(CODEC_RSM, 4, 15);
+  if (ps.go.codecs & GC_RSM8) add_rs(CODEC_RSM, 8, 255);
+  if (ps.go.codecs & GC_LDPC)
+    for (uint32_t k : {1u, 2u, 3u, 4u, 5u, 6u, 8u}) for (uint32_t r : {3u, 4u, 5u, 6u}) for (uint32_t N1 : {3u, 4u}) for (uint32_t sd : {1u, 7u}) {
+      if (N1 > r || k + r > nmax_ldpc) continue;
+      if (!t.thorough && sd == 7 && (k + r) % 2) continue;
+      Config c; c.codec = CODEC_LDPC; c.k = k; c.r = r; c.N1 = N1; c.seed = sd; c.L = 1 + (k * 5 + r) % 11; c.payload = (k + r) % 3 == 0 ? PAY_IDENTITY : PAY_RANDOM; c.pseed = k * 17 + r; cfgs.push_back(c);
+    }
+  uint64_t idx = 0, patterns = 0;
+  for (const Config& c : cfgs) {
+    uint32_t n = c.k + c.r;
+    for (uint64_t mask = 0; mask < (1ull << n); mask++) {
+      if ((idx++ % (uint64_t)nworkers) != (uint64_t)worker) continue;
+      patterns++;
+      uint64_t os = mix2(seed, mask * 64 + n);
+      int cb = ps.go.cb_mode == 1 ? 1 + (int)(mask % 3) : (ps.go.cb_mode == 2 ? 0 : (int)((mask >> 1) % 4));
+      bool qe = ps.go.query_mode == 1;
+      for (int api = 0; api < 2; api++) {
+        if ((ps.go.api_mode == 1 && api == 1) || (ps.go.api_mode == 2 && api == 0)) continue;
+        for (int fin = 0; fin < 2; fin++) {
+          if ((ps.go.finish_mode == 1 && !fin) || (ps.go.finish_mode == 2 && fin)) continue;
+          if (!one(dec_history(c, mask, api, 0, os, fin, cb, qe, -1))) return;
+        }
+      }
+      if (ps.go.api_mode != 2) {
+        bool fin = ps.go.finish_mode == 1 || (ps.go.finish_mode == 0 && (mask & 1));
+        if (!one(dec_history(c, mask, 0, 2, os, fin, cb, qe, -1))) return;
+        if (ps.go.early_release && mask % 5 == 0) { int steps = 2 + __builtin_popcountll(mask); if (!one(dec_history(c, mask, 0, 2, os, true, cb, qe, (int)(os % (uint64_t)(steps + 1))))) return; }
+      }
+    }
+  }
+  if (st_out) { st_out->exhaustive = true; st_out->subspaces.push_back("every received subset (2^n) of " + std::to_string(cfgs.size()) + " small codes (RS n <= " + std::to_string(nmax_rs) + ", LDPC n <= " + std::to_string(nmax_ldpc) + ") x submission API x finish/no finish, canonical + one seeded order: complete"); }
+  extra_json = "\"x_small_codes\":" + std::to_string(cfgs.size()) + ",\"x_patterns_this_worker\":" + std::to_string(patterns);
+}
+
+template <class F>
+inline void enumerate(const std::string& prop, const Tier& t, int worker, int nworkers, uint64_t seed, F one, std::string& extra_json, const PropSpec* psp = nullptr, Stats* st_out = nullptr) {
+  if (prop != "C16") { if (psp && psp->kind <= 2) enumerate_small(*psp, t, worker, nworkers, seed, one, st_out, extra_json); return; }
   // (1) which (k, r) does the codec accept?
   std::vector<std::pair<uint32_t, uint32_t>> accepted;
   uint64_t offered = 0;
